@@ -2,6 +2,7 @@ CFG = {
     "prop_v": "theories/Properties/C01.v",
     "cmd": "c01",
     "batches": lambda tier, seed: [("exhaustive", "-mode exhaustive -tier %s" % tier),
+                                   ("interleave", "-mode interleave -tier %s" % tier),
                                    ("random", "-mode random -tier %s" % tier)],
     "signatures": {},
     "model_args": "-prop C01",
@@ -11,6 +12,11 @@ CFG = {
             "it gets the full battery (Size IsEmpty Height Min Max All, Get/Floor/Ceiling/Rank on present, absent and boundary keys, "
             "Select -1..n+1, Range/RangeSize on all ordered and inverted probe pairs, the 9 traversal orders, the public Traverse in every order and All() with visitors that stop after 0..n+1 pairs (visited prefix and number of visitor calls compared), "
             "Any/All/First/Select/PartitionMatch with 8 predicates, Equal against equal / differing / other-implementation siblings); "
+            "interleave: every mutator history of exactly 4 (quick) / 5 (thorough) letters over 3 keys on ONE long-lived instance with a "
+            "compact battery (Get/Floor/Ceiling/Rank on present and absent keys, Min Max Select RangeSize Range SelectMatch ...) immediately "
+            "before and after every mutator, DeleteAll and re-use after it included; retention probes: returned Range slices and "
+            "SelectMatch/PartitionMatch collections are kept, re-read after later queries and mutations (an answer already given cannot "
+            "change) and finally overwritten, after which the table is queried again; "
             "random: universes up to 64 keys, up to 400 steps, sorted / reverse / zig-zag / random insertion prefixes, churn with "
             "interleaved random queries (absent keys included), DeleteMin / DeleteMax / alternating drains. "
             "A case is non-trivial when at least two mutators changed the number of keys and the table reached two or more keys; "
